@@ -25,11 +25,7 @@ EXTENDS Search, TLC
 CONSTANTS Family, TreeDepth, MaxLen, ShiftWindow, SmallLeaves
 Keys == IF SmallLeaves THEN {-1, 1} ELSE {-1, 0, 1}
 
-\* inverse of Inc on its range; Won / Lost (never in the range of Inc) stay
-Dec(s) == CASE s.t = "M" /\ s.m = 1  -> Won
-            [] s.t = "M" /\ s.m = -1 -> Lost
-            [] s.t = "M" -> Mate(IF s.m < 0 THEN s.m + 1 ELSE s.m - 1)
-            [] OTHER -> s
+\* Dec (Score.tla): inverse of Inc on its range; Won / Lost (never in the range of Inc) stay
 Down(s) == IF ShiftWindow THEN Dec(Neg(s)) ELSE Neg(s)
 
 (* --------------------------- the algorithm ----------------------------- *)
